@@ -49,9 +49,9 @@ def alias_text(e, aliases, depth=4):
   while isinstance(base, ast.Attribute):
     parts.append(base.attr)
     base = base.value
-  if isinstance(base, ast.Name) and base.id in aliases and depth > 0 and parts:
+  if isinstance(base, ast.Name) and base.id in aliases and depth > 0:
     inner = alias_text(aliases[base.id], aliases, depth - 1)
-    return inner + '.' + '.'.join(reversed(parts))
+    return inner + ''.join('.' + p for p in reversed(parts))
   return core.norm(e)
 
 
